@@ -1,2 +1,3 @@
 import Proofs.SpiceProofs
 import Proofs.Conservation
+import Proofs.WalkerProofs
